@@ -31,10 +31,10 @@ void RecLogFinalLinks(pre::BasicValuePresolver &bvp, RecState &st) {
   auto *impl = dynamic_cast<pre::ValuePresolverImpl *>(&bvp);
   if (!impl) { st.Log("{\"ev\":\"link_final_unavailable\"}"); return; }
   const pre::LinkRangeList &brl = (*impl).*get(recpriv::BrlTag());
-  pre::BasicLink::EntryItems ei;
   int irange = 0;
   for (const auto &lr : brl) {
     for (int i = lr.ir_.beg_; i != lr.ir_.end_; ++i) {
+      pre::BasicLink::EntryItems ei;      // a fresh buffer per entry: independent of what the exporter's shared buffer held
       lr.b_.ExportEntryItems(ei, i);
       st.Log("{\"ev\":\"link_final\",\"range\":" + std::to_string(irange) + ",\"type\":" + rec::str(lr.b_.GetTypeName()) +
              ",\"entry\":" + std::to_string(i) + ",\"src\":" + RecNodes(ei.src_items_) + ",\"dst\":" + RecNodes(ei.dest_items_) + "}");
